@@ -4,6 +4,7 @@ import Nstd.Rc.Stale
 import Nstd.Rc.Frame
 import Nstd.Rc.PtrTotal
 import Nstd.Rc.NestedLemmas
+import Nstd.Rc.PtrStale
 /-
   Property C09: shared payloads are released exactly once, after their last handle.
 
@@ -199,6 +200,32 @@ theorem mt_embedded_owner_stable {n : Nat} {s s' : St} {tid x : Nat} {a : Act} (
     | (cases hs; done)
     | (cases hs; rfl)
     | (cases hs; simp only [doInc]; (repeat' split) <;> rfl))
+
+/-- an embedded handle is only ever accessed (copied, replaced, taken out by the destructor) inside a payload that is
+    live and unreleased: no step reads a handle stored in a released block (the use-after-free of D37 is not a step) -/
+theorem mt_embedded_access_live {n : Nat} {s s' : St} {tid t c k v : Nat} (h : Reach n s)
+    (hs : astep s tid (.incE t c k v) = some s' ∨ astep s tid (.takeE t c k v) = some s' ∨
+          astep s tid (.putE c k t v) = some s' ∨ astep s tid (.takeF t c k) = some s' ∨
+          astep s tid (.adoptF c k) = some s') :
+    s.heap c ≠ none ∧ s.freed c = 0 := by
+  have inv := inv_reach h
+  have viaSlot : ∀ v, v < s.n → s.slots v = .blk c → s.heap c ≠ none ∧ s.freed c = 0 :=
+    fun v hv hsl => (mt_safe h).2.2.2.2.1 v c hv hsl
+  have viaFreeing : s.pc tid = .freeing c → s.heap c ≠ none ∧ s.freed c = 0 := by
+    intro hp
+    obtain ⟨⟨blk, hb, _⟩, _⟩ := inv.freeing tid c hp
+    refine ⟨by rw [hb]; simp, ?_⟩
+    by_cases x : c < s.next
+    · have := inv.freedOnce c x
+      simpa [hb] using this
+    · exact (inv.fresh c (by omega)).2
+  rcases hs with hs | hs | hs | hs | hs <;> simp only [astep] at hs <;> split at hs <;>
+    first
+    | (cases hs; done)
+    | (rename_i hc; exact viaSlot v hc.2.2.2.2.2.2.1 hc.2.2.2.2.2.2.2.2.1)
+    | (rename_i hc; exact viaSlot v hc.2.2.2.2.2.2.2.1.1 hc.2.2.2.2.2.2.2.1.2.2.1)
+    | (rename_i hc; exact viaFreeing hc.2.2.2.2.1)
+    | (rename_i hc; exact viaFreeing hc.2.1)
 
 /-- the NEXT step of any thread from any reachable state is safe as well: it does not touch a
     released block, release twice, or write in place a block that has another handle -/
@@ -518,12 +545,25 @@ example : ∃ s, apiRun (init nSlots) 0 [.pNew 12 1, .pCopy 13 12, .pAssign 14 1
     (`dec` forgets the pointer in the model; `Stale.lean` instruments the step sequences with the pointer that
     the C++ object still holds until it is overwritten, and counts every read of such a slot as `misuse`) -/
 
-/-- every history of String / Variant / Xml::Variant calls: no step ever reads (copies, dereferences, releases
-    again) a handle between the decrement through it and the store that overwrites it -/
+/-- every history of calls of Model.lean — String, Variant, Xml::Variant and ALL RefCount::Ptr calls, including those that
+    create or walk `next` handles (`d->next = s`, `d = d->next`, `d = s->next`) and the destructor cascade: no step ever
+    reads (copies, dereferences, releases again) a handle between the decrement through it and the store that
+    overwrites it.  For `Ptr::operator=` this is the order "read the assigned handle, then release" (defect D37). -/
 theorem no_use_after_drop {n : Nat} {ops : List ApiOp} {s : St} {g : Gh}
-    (hops : ∀ op, op ∈ ops → flatOp op = true ∧ idxOk op) (h : apiRunG (init n) gh0 0 ops = some (s, g)) :
+    (hops : ∀ op, op ∈ ops → flatOp op = true → idxOk op) (h : apiRunG (init n) gh0 0 ops = some (s, g)) :
     g.misuse = 0 :=
-  (apiRunG_clean ops (by decide) hops gh0_clean h).1
+  (apiRunG_clean_all ops (by decide) hops gh0_clean h).1
+
+/-- `d = d->next` (Ptr variables are slots 12..15): the step list of the real order passes the check, the
+    decrement-first order of D37 (`release; read other`) reads the stale slot -/
+example : staleOk [] [.incE 17 0 0 12, .dec 12, .free, .clr 12, .move 12 17] = some []
+    ∧ staleOk [] [.dec 12, .free, .incE 17 0 0 12, .clr 12, .move 12 17] = none := by decide
+
+/-- a walk along a chain with `d = d->next` and a re-link, instrumented: accepted, no misuse -/
+example : ∃ s g, apiRunG (init nTotal) gh0 0 [.pNew 12 1, .pNew 13 2, .pLink 12 13, .pClear 13, .pNext 12, .pNext 12] = some (s, g)
+    ∧ g.misuse = 0 ∧ s.freed 0 = 1 ∧ s.freed 1 = 1 := by
+  refine ⟨_, _, rfl, ?_⟩
+  decide
 
 /-- the instrumentation does see the defect class: the decrement-first `operator=` on a self-assignment
     (`release; acquire from the same handle`) is a misuse, the order of the real code is not -/
@@ -536,12 +576,6 @@ example : ∃ s g, runTG (init nSlots) gh0 0 [.alloc 0 30 [1] 0, .inc 17 0, .dec
     g.misuse = 0 ∧ s.freed 0 = 0 := by
   refine ⟨_, _, rfl, ?_⟩
   decide
-
-/-
-  OPEN: `no_use_after_drop` for the RefCount::Ptr calls that walk through embedded handles (their step lists depend
-  on the object graph); the order "read the assigned handle, then release" of `Ptr::operator=` (defect D37, seeded
-  change C09-1) is validated for them by the correspondence run only.
--/
 
 /-! ### non-vacuity: concrete histories / schedules that exercise sharing, cloning, release -/
 
